@@ -23,6 +23,15 @@ Harness-only dimensions the Lean model is independent of (all optional keys; abs
   f["default"]=="decorator" the takes-self factory is installed with `@x.default`
   f["ca_reuse"], f["v_extra"]  (sibling fields only) the sibling re-uses the attr.ib()/field() OBJECT of the real chain's
                            field of that name after adding `v_extra` more `@x.validator` methods to it
+  f["converter"]=="pipe"   a converter CHAIN: f["pipe"] = member kinds (plain | c00 | c10 | c01 | c11), given as a list
+                           (f["pipe_style"]=="list") or as converters.pipe(...); each member is its own traced callback
+                           (event `conv`, idx = position; results print `conv.x(..)`, `conv1.x(..)`, ...): MODELLED (Attr.pipe)
+  cs["side_base"]          {"pos": "before"|"after", "slots": bool}: a second direct base, a field-less plain mixin listed
+                           before / after the chain parent (multiple inheritance; layout facts are read from the real MRO)
+  classes[0]["eq_twin"]    instead of the decoy chain a TWIN chain is defined first: same module, qualnames and layout, and
+                           every helper object (default, factory, converter, validator, hook) EQUAL (`==`) to the real
+                           chain's but distinguishable: callbacks are callable objects comparing equal per role and printing
+                           a "TWIN." tag, defaults are instances of a str subclass that canonicalise with the tag
   call values              tokens of ODD_KINDS decode to objects with unusual __eq__/__ne__/__bool__/__hash__
 """
 from __future__ import annotations
@@ -166,6 +175,8 @@ def _canon(v):
         return v.token
     if v is attr.NOTHING:
         return "NOTHING"
+    if isinstance(v, TwinStr):
+        return "TWIN." + str.__str__(v)
     if isinstance(v, str):
         return v
     if v is None:
@@ -177,6 +188,14 @@ def _canon(v):
     if isinstance(v, attr.Attribute):
         return "attr." + v.name
     return "other:" + type(v).__name__
+
+
+class TwinStr(str):
+    """a default value of the TWIN chain: equal to (and hashing like) the real chain's default string, but telling"""
+    __slots__ = ()
+
+
+_EQ = [False]             # eq-twin mode: callbacks are EqCallback objects instead of closures
 
 
 class Fresh(str):
@@ -192,8 +211,86 @@ def _event(kind, field, idx, args, tag=""):
         raise common.UserError(f"{kind}.{field}.{idx}")
 
 
+class EqCallback:
+    """a callback OBJECT (eq-twin mode): compares equal to every callback of the same role -- kind, field, index,
+    what it takes -- whichever chain it was made for; what it logs and returns carries its own chain's tag"""
+    __slots__ = ("key", "tag")
+
+    def __init__(self, key, tag):
+        self.key, self.tag = key, tag
+
+    def __eq__(self, other):
+        return isinstance(other, EqCallback) and other.key == self.key
+
+    def __ne__(self, other):
+        return not self.__eq__(other)
+
+    def __hash__(self):
+        return hash(self.key)
+
+    def __repr__(self):
+        return "<callback %s>" % "/".join(map(str, self.key))
+
+
+class EqFactory0(EqCallback):
+    __slots__ = ()
+
+    def __call__(self):
+        _event("factory", self.key[1], 0, [], self.tag)
+        return Fresh(f"{self.tag}factory.{self.key[1]}()")
+
+
+class EqFactory1(EqCallback):
+    __slots__ = ()
+
+    def __call__(self, inst):
+        _event("factory", self.key[1], 0, [inst], self.tag)
+        return Fresh(f"{self.tag}factory.{self.key[1]}(self)")
+
+
+def _conv_result(tag, name, idx, value, extra):
+    out = f"{tag}conv{idx or ''}.{name}({_canon(value)}"
+    for e in extra:
+        out += "," + _canon(e)
+    return Fresh(out + ")")
+
+
+class EqConv(EqCallback):
+    __slots__ = ()
+
+    def __call__(self, value, *extra):
+        _event("conv", self.key[1], self.key[2], [value, *extra], self.tag)
+        return _conv_result(self.tag, self.key[1], self.key[2], value, extra)
+
+
+class EqConvAnn(EqCallback):
+    __slots__ = ()
+
+    def __call__(self, value: ConvIn, *extra):
+        _event("conv", self.key[1], self.key[2], [value, *extra], self.tag)
+        return _conv_result(self.tag, self.key[1], self.key[2], value, extra)
+
+
+class EqValidator(EqCallback):
+    __slots__ = ()
+
+    def __call__(self, inst, a, value):
+        _event("validator", self.key[1], self.key[2], [inst, a, value], self.tag)
+
+
+class EqHook(EqCallback):
+    __slots__ = ()
+
+    def __call__(self, inst, a, value):
+        name, idx = self.key[1], self.key[2]
+        _event("hook", name, idx, [inst, a, value], self.tag)
+        return f"{self.tag}hook.{name}({_canon(value)})" if idx == 0 else f"{self.tag}hook{idx}.{name}({_canon(value)})"
+
+
 def mk_factory(name, takes_self):
     tag = _TAG[0]
+    if _EQ[0]:
+        return (EqFactory1 if takes_self else EqFactory0)(("factory", name, 0, takes_self), tag)
     if takes_self:
         def factory(inst):
             _event("factory", name, 0, [inst], tag)
@@ -205,19 +302,18 @@ def mk_factory(name, takes_self):
     return factory
 
 
-def mk_converter(name, kind, ann):
-    """kind: plain | c00 | c10 | c01 | c11 (Converter(takes_self, takes_field))"""
+def mk_converter(name, kind, ann, idx=0):
+    """kind: plain | c00 | c10 | c01 | c11 (Converter(takes_self, takes_field)); idx: position in a converter chain"""
     ts, tf = (False, False) if kind == "plain" else (kind[1] == "1", kind[2] == "1")
     tag = _TAG[0]
 
     def conv(value, *extra):
-        _event("conv", name, 0, [value, *extra], tag)
-        out = f"{tag}conv.{name}({_canon(value)}"
-        for e in extra:
-            out += "," + _canon(e)
-        return Fresh(out + ")")
+        _event("conv", name, idx, [value, *extra], tag)
+        return _conv_result(tag, name, idx, value, extra)
 
-    if ann:
+    if _EQ[0]:
+        fn = (EqConvAnn if ann else EqConv)(("conv", name, idx, kind, bool(ann)), tag)
+    elif ann:
         # a first-parameter annotation the generated __init__ should pick up
         def conv_a(value: ConvIn, *extra):
             return conv(value, *extra)
@@ -231,6 +327,8 @@ def mk_converter(name, kind, ann):
 
 def mk_validator(name, idx):
     tag = _TAG[0]
+    if _EQ[0]:
+        return EqValidator(("validator", name, idx), tag)
 
     def validator(inst, a, value):
         _event("validator", name, idx, [inst, a, value], tag)
@@ -269,6 +367,8 @@ def _ctx():
 
 def mk_hook(name, idx=0):
     tag = _TAG[0]
+    if _EQ[0]:
+        return EqHook(("hook", name, idx), tag)
 
     def hook(inst, a, value):
         _event("hook", name, idx, [inst, a, value], tag)
@@ -310,6 +410,14 @@ def _cls_on_setattr_arg(kind):
     }[kind]
 
 
+def _dflt_value(name):
+    """the declared default of field `name`: a string carrying the chain's tag; in the TWIN chain an object that is EQUAL
+    to the real chain's default string but canonicalises with the tag"""
+    if _EQ[0] and _TAG[0] == "TWIN.":
+        return TwinStr(f"dflt.{name}")
+    return f"{_TAG[0]}dflt.{name}"
+
+
 def _field_obj(f, next_gen):
     ctx = _ctx()
     if f.get("ca_reuse") and _TAG[0] == "SIB." and f["name"] in ctx.cas:
@@ -322,7 +430,7 @@ def _field_obj(f, next_gen):
     kw = {}
     d = f["default"]
     if d == "value":
-        kw["default"] = f"{_TAG[0]}dflt.{f['name']}"
+        kw["default"] = _dflt_value(f["name"])
     elif d == "factory":
         kw["factory"] = mk_factory(f["name"], False)
     elif d == "factory_self":
@@ -333,7 +441,11 @@ def _field_obj(f, next_gen):
         kw["kw_only"] = True
     if f.get("alias"):
         kw["alias"] = f["alias"]
-    if f.get("converter"):
+    if f.get("converter") == "pipe":
+        # a converter chain: every member its own traced callback; only the first one's annotation can matter
+        members = [mk_converter(f["name"], k, f.get("conv_type", False) and i == 0, idx=i) for i, k in enumerate(f["pipe"])]
+        kw["converter"] = members if f.get("pipe_style", "list") == "list" else attr.converters.pipe(*members)
+    elif f.get("converter"):
         kw["converter"] = mk_converter(f["name"], f["converter"], f.get("conv_type", False))
     # the field's chain of `validators` callbacks: the first m through the `validator=` argument (a callable, a list,
     # an and_() object, or an and_() object shared with other fields), the rest with `@x.validator`
@@ -463,6 +575,20 @@ def _decorator(cs, api, kw):
     return deco
 
 
+def _bases(cs, base, modname):
+    """the direct bases: the chain parent, and -- cs["side_base"] -- a field-less plain mixin before or after it"""
+    sb = cs.get("side_base")
+    if not sb:
+        return (base,)
+    ns = {"__module__": modname}
+    if sb.get("slots"):
+        ns["__slots__"] = ()
+    mixin = type("M_" + cs.get("name", "C"), (object,), ns)
+    if base is object:
+        return (mixin,)
+    return (mixin, base) if sb.get("pos") == "before" else (base, mixin)
+
+
 def build_class(cs, base, modname="verif_synth"):
     name = cs.get("name", "C")
     if cs["kind"] == "plain":
@@ -493,25 +619,25 @@ def build_class(cs, base, modname="verif_synth"):
                 # does not collect annotations unless asked to)
                 anns[f["name"]] = TYPES[f["type"]]
                 if f["default"] == "value":
-                    ns[f["name"]] = f"{_TAG[0]}dflt.{f['name']}"
+                    ns[f["name"]] = _dflt_value(f["name"])
                 continue
             ns[f["name"]] = _field_obj(f, next_gen)
             if f.get("annotated") and f.get("type"):
                 anns[f["name"]] = TYPES[f["type"]]
         if anns:
             ns["__annotations__"] = anns
-        cls = type(name, (base,), ns)
+        cls = type(name, _bases(cs, base, modname), ns)
         if api == "frozen":
             kw.pop("frozen", None)
         return _decorator(cs, api, kw)(cls)
     if api == "these":
-        cls = type(name, (base,), ns)
+        cls = type(name, _bases(cs, base, modname), ns)
         these = {f["name"]: _field_obj(f, False) for f in fields}
         return attr.s(these=these, **kw)(cls)
     if api == "make_class":
         body = {k: v for k, v in ns.items() if k != "__module__"}
         these = {f["name"]: _field_obj(f, False) for f in fields}
-        cls = attr.make_class(name, these, bases=(base,), class_body=body, **kw)
+        cls = attr.make_class(name, these, bases=_bases(cs, base, modname), class_body=body, **kw)
         return cls
     raise ValueError(api)
 
@@ -533,7 +659,11 @@ def build(hspec):
         # A decoy chain with the same layout (same names, options, qualnames) but differently tagged callbacks
         # and defaults is defined FIRST: anything attrs memoises per layout / per name / per qualname and then
         # leaks into the real chain shows up as "DECOY." values or events in the observation.
-        _TAG[0] = "DECOY."
+        # eq-twin mode: the chain defined first is a TWIN -- every helper object it hands to attrs compares EQUAL to
+        # the real chain's (callback objects per role, default strings of a str subclass) but tells in what it logs /
+        # returns: whatever attrs re-uses from an earlier class because "everything is equal" shows as "TWIN.".
+        _EQ[0] = bool(hspec["classes"][0].get("eq_twin"))
+        _TAG[0] = "TWIN." if _EQ[0] else "DECOY."
         try:
             base = root
             for cs in hspec["classes"]:
@@ -562,6 +692,7 @@ def build(hspec):
     finally:
         _CTX[0] = None
         _TAG[0] = ""
+        _EQ[0] = False
     _CACHE[key] = out
     return out
 
@@ -656,7 +787,17 @@ def lean_attr(f, cls):
     d = f["default"]
     dflt = "none" if d == "none" else "value" if d == "value" else {"factory": {"takesSelf": d != "factory"}}
     conv = None
-    if f.get("converter"):
+    pipe = None
+    conv_type = bool(f.get("converter") and f.get("conv_type"))
+    if f.get("converter") == "pipe":
+        # pipe(): a plain callable if no member is a Converter, else Converter(pipe_converter, takes_self=True,
+        # takes_field=True); its first-parameter annotation is the first member's, which only a plain callable shows
+        ks = f["pipe"]
+        wrapped = any(k != "plain" for k in ks)
+        conv = {"takesSelf": wrapped, "takesField": wrapped}
+        pipe = [{"takesSelf": k != "plain" and k[1] == "1", "takesField": k != "plain" and k[2] == "1"} for k in ks]
+        conv_type = conv_type and ks[0] == "plain"
+    elif f.get("converter"):
         k = f["converter"]
         conv = {"takesSelf": k != "plain" and k[1] == "1", "takesField": k != "plain" and k[2] == "1"}
     ons = f.get("on_setattr", "unset")
@@ -671,7 +812,8 @@ def lean_attr(f, cls):
         "onSet": "unset" if ons == "unset" else "noop" if ons == "noop" else "hooks",
         "isSlot": _is_member_descriptor(cls, f["name"]),
         "type": (repr(TYPES[f["type"]]) if f.get("type") else None),
-        "convType": ("'ConvIn'" if f.get("converter") and f.get("conv_type") else None),
+        "convType": ("'ConvIn'" if conv_type else None),
+        "pipe": pipe,
     }
 
 
@@ -825,7 +967,10 @@ def repair_order(fields_in_order):
             f["kw_only"] = True
 
 
-def gen_field(rng, name, frozen, rich=True):
+PIPE_KINDS = ["plain", "plain", "plain", "c00", "c10", "c01", "c11"]
+
+
+def gen_field(rng, name, frozen, rich=True, pipes=0.0):
     f = {"name": name,
          "default": rng.choice(["none", "none", "value", "factory", "factory_self"]),
          "init": rng.random() > 0.2,
@@ -837,6 +982,11 @@ def gen_field(rng, name, frozen, rich=True):
          "type": rng.choice([None, None, "int"]),
          "conv_type": rng.random() < 0.5,
          }
+    if pipes and rich and rng.random() < pipes:
+        # a converter chain of 2-3 members mixing plain callables and Converter(takes_self, takes_field) instances
+        f["converter"] = "pipe"
+        f["pipe"] = [rng.choice(PIPE_KINDS) for _ in range(rng.choice([2, 3, 3]))]
+        f["pipe_style"] = rng.choice(["list", "list", "pipe"])
     if f["default"] == "factory_self" and rng.random() < 0.4:
         f["default"] = "decorator"                      # the same field written with `@x.default`
     if f["validators"]:
@@ -939,7 +1089,7 @@ def gen_sibling(rng, chain, like, k):
     return cs
 
 
-def gen_hspec(rng, depth=None, frozen=None, allow_exc=True, allow_plain=True, history=0.3):
+def gen_hspec(rng, depth=None, frozen=None, allow_exc=True, allow_plain=True, history=0.3, pipes=0.0):
     # a targeted family: hooked attrs class <- plain class <- dict attrs class (the reset of an inherited
     # attrs-made __setattr__ must look through the plain class)
     force_mid = depth is None and frozen is None and allow_plain and rng.random() < 0.08
@@ -1008,7 +1158,7 @@ def gen_hspec(rng, depth=None, frozen=None, allow_exc=True, allow_plain=True, hi
             names.append("p")
         annotated = api in ("define", "frozen") and rng.random() < 0.5
         for n in names:
-            f = gen_field(rng, n, frozen_here)
+            f = gen_field(rng, n, frozen_here, pipes=pipes)
             if annotated:
                 f["annotated"] = True
                 f["type"] = f["type"] or "int"
@@ -1122,6 +1272,13 @@ def gen_hspec(rng, depth=None, frozen=None, allow_exc=True, allow_plain=True, hi
             if rng.random() < history:
                 like = classes[i + 1] if i + 1 < len(classes) else cs
                 cs["siblings"] = [gen_sibling(rng, classes[: i + 1], like, k) for k in range(rng.choice([1, 1, 2]))]
+        # multiple inheritance: a field-less plain mixin as a second direct base, before or after the chain parent
+        for cs in classes:
+            if cs["kind"] == "attrs" and rng.random() < history / 2:
+                cs["side_base"] = {"pos": rng.choice(["before", "before", "after"]), "slots": rng.random() < 0.5}
+        # the chain defined first is an equal-comparing twin instead of a decoy
+        if rng.random() < history * 0.7:
+            classes[0]["eq_twin"] = True
     return h
 
 
